@@ -4,6 +4,7 @@ import (
 	"encoding/json"
 	"fmt"
 	"os"
+	"regexp"
 	"strings"
 
 	"verif/harness/core"
@@ -17,19 +18,113 @@ import (
 // the same case hold; anything else in the class is reported under its own signature.
 
 const (
-	sigF9    = "in-subquery-null-antijoin-mergejoin"
-	sigF14   = "inlist-int-decimal-literals-hash-in-rounds"
-	sigF5    = "inlist-ci-string-ignores-collation"
-	sigF10   = "inlist-all-fractional-on-indexed-int-panics"
-	sigG1    = "neq-fractional-literal-on-indexed-decimal-keeps-equal-row"
-	sigG2    = "decimal-lookup-key-into-int-index-rounds"
-	sigF13   = "nullsafe-eq-ci-string-index-vs-select-list"
-	sigIdAll = "inlist-fractional-on-int-primary-key-returns-all-rows"
+	sigF9     = "in-subquery-null-antijoin-mergejoin"
+	sigF14    = "inlist-int-decimal-literals-hash-in-rounds"
+	sigF5     = "inlist-ci-string-ignores-collation"
+	sigF10    = "inlist-all-fractional-on-indexed-int-panics"
+	sigG1     = "neq-fractional-literal-on-indexed-decimal-keeps-equal-row"
+	sigG2     = "decimal-lookup-key-into-int-index-rounds"
+	sigF13    = "nullsafe-eq-ci-string-index-vs-select-list"
+	sigIdAll  = "inlist-fractional-on-int-primary-key-returns-all-rows"
+	sigNegZ   = "hash-in-negative-zero-decimal"
+	sigLikeCI = "like-prefix-range-on-ci-function-compares-binary"
+	sigG4     = "concat-lookup-join-drops-pushed-down-conjunct"
+	sigOnSub  = "on-clause-correlated-subquery-in-hash-join-key"
+	sigG6     = "rangeheap-join-drops-pushed-down-filter"
+	sigG7     = "merge-join-on-expression-of-indexed-column"
+	sigG8     = "hash-join-key-on-ci-function-hashes-binary"
+
+	sigNullArith = "in-subquery-double-vs-decimal-select-list-says-false"
 )
 
-// matchKnown attributes a minimised violation found by the core exploration to a known class (none so far
-// besides F9, which is matched before minimisation).
-func matchKnown(sh *shape, mp *g6blib.Expr, msc *g6blib.Schema, mo *outcome) string { return "" }
+// rejected is the post-generation part of the core domain (a filter, so that adding a class does not
+// reshuffle the seeded streams): it names the excluded input class or returns "".
+func rejected(p *g6blib.Expr) string {
+	why := ""
+	p.Walk(func(e *g6blib.Expr) {
+		if e.Op == "bin" || e.Op == "neg" {
+			for _, a := range e.Args {
+				if a.Op == "lit" && a.Name == "NULL" {
+					// the engine types NULL-literal arithmetic as DOUBLE; a DOUBLE operand in IN (subquery) / hash
+					// comparisons against DECIMAL is the known finding sigNullArith
+					why = "arithmetic-over-null-literal"
+				}
+			}
+		}
+	})
+	return why
+}
+
+var simpleMergeCmp = regexp.MustCompile(`^cmp: \(\w+\.\w+ = \w+\.\w+\)$`)
+
+// classify gives a violation found by the core exploration its signature: one of the known via=signature
+// findings when its matcher applies, else "c05:<clause>:<failure mode>:<skeleton of the minimised predicate>".
+func classify(s *core.Sess, sc *g6blib.Schema, sh *shape, p *g6blib.Expr, o *outcome, f feats) (string, map[string]any) {
+	psql := p.SQL()
+	plans := ""
+	exprMerge := false
+	for _, k := range []string{"TRUE", "FALSE", "NULL"} {
+		pl := s.Plan(o.queries[k])
+		plans += pl
+		for _, l := range strings.Split(pl, "\n") {
+			t := strings.TrimLeft(l, " │├└─")
+			if strings.HasPrefix(t, "cmp: ") && !simpleMergeCmp.MatchString(t) {
+				exprMerge = true
+			}
+		}
+	}
+	// merge-join family: the same case holds with merge joins disabled
+	if strings.Contains(plans, "MergeJoin") {
+		s.MustExec("SET @@SESSION.disable_merge_join = 1")
+		o2 := judge(s, sh, psql)
+		s.MustExec("SET @@SESSION.disable_merge_join = 0")
+		if o2.verdict == "held" {
+			// F9: IN (subquery) negated into an anti-join run as LeftOuterMergeJoin; every discrepancy is "filter
+			// keeps a row whose select-list value is NULL"
+			if f.inSub && o.extraOnlyNull && !o.tlpOK {
+				return sigF9, nil
+			}
+			// G7: the merge comparison is over an expression of the indexed column (input not sorted by it)
+			if exprMerge {
+				return sigG7, nil
+			}
+		}
+	}
+	// join-operator family: the same case holds when the join is forced to a plain nested-loop join by hint
+	hintRepairs := false
+	if strings.Contains(sh.ids, "x1.id") {
+		var qs [][2]string
+		for _, k := range []string{"Q", "TRUE", "FALSE", "NULL", "PROJ"} {
+			qs = append(qs, [2]string{k, strings.Replace(o.queries[k], "SELECT ", "SELECT /*+ INNER_JOIN(x0,x1) */ ", 1)})
+		}
+		hintRepairs = judgeQueries(s, qs).verdict == "held"
+		if hintRepairs {
+			switch {
+			case strings.Contains(plans, "Concat") && strings.Contains(plans, "LookupJoin"):
+				return sigG4, nil
+			case strings.Contains(plans, "RangeHeapJoin"):
+				return sigG6, nil
+			}
+		}
+	}
+	// minimise predicate and rows; the signature names the minimised failing input class and the failure mode
+	mp, msc, mo := minimize(s, sc, sh, p)
+	extra := map[string]any{"minimized": map[string]any{"predicate": mp.SQL(), "setup": msc.Setup(), "queries": mo.queries, "results": mo.results, "mode": mo.mode}}
+	if hintRepairs && strings.Contains(plans, "HashJoin") && ciFuncEquality(mp) {
+		return sigG8, extra
+	}
+	return "c05:" + sh.clause + ":" + mo.mode + ":" + mp.Shape(), extra
+}
+
+// ciFuncEquality: the (minimised) predicate is an equality between case-insensitive strings one of which is
+// a function result.
+func ciFuncEquality(p *g6blib.Expr) bool {
+	if p.Op != "cmp" || (p.Name != "=" && p.Name != "<=>") {
+		return false
+	}
+	l, r := p.Args[0], p.Args[1]
+	return l.Kind == g6blib.KCI && r.Kind == g6blib.KCI && (l.Op != "col" || r.Op != "col")
+}
 
 var tableShape = func(t string) *shape {
 	return &shape{name: "table", clause: "WHERE", ids: "x0.id", from: "FROM " + t + " x0"}
@@ -128,6 +223,32 @@ func pinnedCases() []classCase {
 			p:  "(x0.d = x1.id)", repaired: "((x0.d + 0) = (x1.id + 0))", mode: "TRUE:filter-keeps-extra-rows"},
 		{sig: sigF13, what: "ci_col <=> 'B' in the select list compares binary ('b' <=> 'B' is 0) while the index lookup honours the collation", setup: tu,
 			sh: tableShape("t"), p: "(x0.ci <=> 'B')", mode: "TRUE:filter-keeps-extra-rows"},
+		{sig: sigNegZ, what: "IN list (HashInTuple) hashes a negative-zero DECIMAL differently from 0: (-1.50 * 0) IN (0.00) is not kept by the filter, 1 in the select list", setup: tu,
+			sh: tableShape("w"), p: "(((x0.d - 2.50) * 0) IN (0.00))", repaired: "(((x0.d - 2.50) * 0) = 0.00)", mode: "TRUE:filter-loses-rows"},
+		{sig: sigLikeCI, what: "LIKE 'a%' over a function of an _ai_ci column: the filter adds the prefix range (LEFT(c,2) >= 'a') which is compared binary, so 'A' is lost by the filter and 1 in the select list", setup: tu,
+			sh: tableShape("t"), p: "(LEFT(x0.c, 2) LIKE 'a%')", mode: "TRUE:filter-loses-rows"},
+		{sig: sigG4, what: "ON (x0.a = 5 OR x1.id = x0.id) AND x1.s = '' with KEY(s): the concat lookup join turns the pushed-down conjunct x1.s = '' into the lookup of the first disjunct and drops it as a filter",
+			setup: []string{"CREATE TABLE t (id INT PRIMARY KEY, a INT, s VARCHAR(20) COLLATE utf8mb4_0900_bin, KEY ks (s))", "INSERT INTO t VALUES (1, 7, 'a'),(2,2,'')", "CREATE TABLE u (id INT PRIMARY KEY, a INT)", "INSERT INTO u VALUES (1, 2),(2,2)"},
+			sh:    &shape{name: "on", clause: "ON", ids: "x0.id, x1.id", from: "FROM u x0 CROSS JOIN t x1", onFrom: "FROM u x0 JOIN t x1 ON "},
+			p:     "(((x0.a = 5) OR (x1.id = x0.id)) AND (x1.s = ''))", mode: "TRUE:filter-keeps-extra-rows"},
+		{sig: sigOnSub, what: "ON IF(EXISTS(subquery correlated to x0), 'b%', x1.c) = 'b%' becomes a HashJoin whose lookup key contains the subquery and is evaluated on the wrong side: pair 3|4 is lost",
+			setup: []string{"CREATE TABLE t (id INT PRIMARY KEY, dt DATE, KEY kdt (dt))", "INSERT INTO t VALUES (1, '2020-02-29'), (2, NULL), (3, '2021-06-15')", "CREATE TABLE u (id INT PRIMARY KEY, c VARCHAR(20), dt DATE)", "INSERT INTO u VALUES (1, 'b%', '2000-01-01'), (2, 'a b', '2000-01-01'), (3, 'xyz', '2021-06-15'), (4, 'b', NULL)"},
+			sh:    &shape{name: "on", clause: "ON", ids: "x0.id, x1.id", from: "FROM t x0 CROSS JOIN u x1", onFrom: "FROM t x0 JOIN u x1 ON "},
+			p:     "(IF((EXISTS (SELECT 1 FROM u s1 WHERE (s1.dt = x0.dt))), 'b%', x1.c) = 'b%')", mode: "TRUE:filter-loses-rows"},
+		{sig: sigG6, what: "ON (x1.id BETWEEN x0.b AND x0.id) AND x1.a = 7 planned as RangeHeapJoin: the single-table conjunct x1.a = 7 pushed below the join is dropped (right side becomes a bare IndexedTableAccess)",
+			setup: []string{"CREATE TABLE t (id INT PRIMARY KEY, a INT, b SMALLINT)", "INSERT INTO t VALUES (2, 5, 1)", "CREATE TABLE u (id INT PRIMARY KEY, a INT, b SMALLINT)", "INSERT INTO u VALUES (4, -1, 2)"},
+			sh:    &shape{name: "on", clause: "ON", ids: "x0.id, x1.id", from: "FROM u x0 CROSS JOIN t x1", onFrom: "FROM u x0 JOIN t x1 ON "},
+			p:     "((x1.id BETWEEN x0.b AND x0.id) AND (x1.a = 7))", mode: "TRUE:filter-keeps-extra-rows"},
+		{sig: sigG7, what: "(x0.a * (-1)) IN (SELECT a FROM t) with indexes on both a columns: MergeJoin cmp ((x0.a * -1) = s1.a) reads x0 in index order of a, not of the key expression, and misses matches",
+			setup: []string{"CREATE TABLE t (id INT PRIMARY KEY, a INT, KEY ka (a))", "INSERT INTO t VALUES (1,-1),(2,-2),(3,-3),(4,-5),(5,-7)", "CREATE TABLE u (id INT PRIMARY KEY, a INT, KEY ka (a))", "INSERT INTO u VALUES (1,1),(2,2),(3,3),(4,4),(5,5),(6,6),(7,7)"},
+			sh:    tableShape("u"), p: "((x0.a * (-1)) IN (SELECT s1.a FROM t s1))"},
+		{sig: sigG8, what: "ON COALESCE(x1.c, 'A') = x0.c over _ai_ci columns planned as HashJoin: the key of the function side is hashed without the collation, 'A' and 'a' do not meet although '=' is TRUE",
+			setup: []string{"CREATE TABLE t (id INT PRIMARY KEY, c VARCHAR(20) COLLATE utf8mb4_0900_ai_ci)", "INSERT INTO t VALUES (1, NULL), (3, 'a')", "CREATE TABLE u (id INT PRIMARY KEY, c VARCHAR(20) COLLATE utf8mb4_0900_ai_ci)", "INSERT INTO u VALUES (1, 'ab'), (2, 'ab'), (3, 'A'), (4, '10'), (5, '10')"},
+			sh:    &shape{name: "on", clause: "ON", ids: "x0.id, x1.id", from: "FROM t x0 CROSS JOIN u x1", onFrom: "FROM t x0 JOIN u x1 ON "},
+			p:     "(COALESCE(x1.c, 'A') = x0.c)", mode: "TRUE:filter-loses-rows"},
+		{sig: sigNullArith, what: "COALESCE(NULL * 1, d) is typed DOUBLE; DOUBLE IN (SELECT decimal) is 0 in the select list (InSubquery hash) but the row is kept by the semi-join filter",
+			setup: []string{"CREATE TABLE u (id INT PRIMARY KEY, d DECIMAL(8,2))", "INSERT INTO u VALUES (2, 100.00)"},
+			sh:    tableShape("u"), p: "(COALESCE((NULL * 1), x0.d) IN (SELECT s1.d FROM u s1))", mode: "TRUE:filter-keeps-extra-rows"},
 		{sig: sigIdAll, what: "INT primary key IN (fractional literal) returns every row", setup: tu,
 			sh: tableShape("t"), p: "(x0.id IN (2.5))", repaired: "(x0.id = 2.5)", mode: "TRUE:filter-keeps-extra-rows"},
 	}
